@@ -7,7 +7,7 @@ import Cppcms.C16.Spec
 Every arithmetic expression, constant, table and condition comes from `Gen.lean` (regenerated
 from the source on every run).  Hand-written here: the order of statements, the loops, the
 buffer hand-over (`memcpy` into the fixed 64-byte arrays, which are *not* cleared by
-`md5_init` / `sha1::reset`), the conversion `size_t → int` at `md5_digets::append`.
+`md5_init` / `sha1::reset`), the chunking loop and the conversion `size_t → int` at `md5_digets::append`.
 -/
 namespace Cppcms.C16
 open Cppcms
@@ -88,11 +88,23 @@ be representable): non-positive counts are ignored, otherwise the first `nbytes`
 def md5AppendN (s : Md5State) (data : Bytes) (nbytes : Nat) : Md5State :=
   if nbytes = 0 then s else md5AppendCore s (data.take nbytes)
 
-/-- `md5_digets::append(ptr, size)`: `size_t size` is converted to `int nbytes`; values that come out
-non-positive (size ≡ 0 or ≥ 2^31 modulo 2^32) make `md5_append` return without doing anything -/
-def md5Append (s : Md5State) (data : Bytes) : Md5State :=
-  let n := data.length % 2 ^ 32
-  if n ≥ 2 ^ 31 then s else md5AppendN s data n
+/-- a call `impl::md5_append(&state_, p, n)` with `n` a `size_t`: the argument is converted to `int`;
+values that come out non-positive (n ≡ 0 or ≥ 2^31 modulo 2^32) make `md5_append` return at once -/
+def md5AppendInt (s : Md5State) (data : Bytes) (n : Nat) : Md5State :=
+  let nb := n % 2 ^ 32
+  if nb ≥ 2 ^ 31 then s else md5AppendN s data nb
+
+/-- the `while(size > max_chunk)` loop of `md5_digets::append` and the final call (explicit fuel:
+every round consumes `max_chunk` bytes) -/
+def md5AppendLoop : Nat → Md5State → Bytes → Md5State
+  | 0, s, _ => s
+  | fuel + 1, s, d =>
+    if d.length > Gen.md5MaxChunk then
+      md5AppendLoop fuel (md5AppendInt s d Gen.md5MaxChunk) (d.drop Gen.md5MaxChunk)
+    else md5AppendInt s d d.length
+
+/-- `md5_digets::append(ptr, size)` (src/crypto.cpp) -/
+def md5Append (s : Md5State) (data : Bytes) : Md5State := md5AppendLoop (data.length + 1) s data
 
 def md5Count (s : Md5State) (i : Nat) : Nat := if i = 0 then s.count0 else s.count1
 
